@@ -17,12 +17,12 @@ def run(chk, tier):
     chk.floor("R-HISTORY", "facts", nh, 30)
     chk.rule("R-DEFINE", "functions that define their destination do so before accumulating into it")
     nd = bitmaprules.define_before_accumulate(chk, P, DEFINING)
-    chk.floor("R-DEFINE", "accumulating sites in defining functions", nd, 6)
+    chk.floor("R-DEFINE", "accumulating sites in defining functions", nd, 4)
     chk.rule("R-MINUS1", "documented -1 conventions for infinite sets")
     bitmaprules.early_minus_one(chk, P)
     chk.rule("R-PROG", "loop progress")
     nl = progloops.run(chk, P, ["bitmap.c"])
-    chk.floor("R-PROG", "in-scope loops", nl, 25)
+    chk.floor("R-PROG", "in-scope loops", nl, 18)
     chk.decided += ["results do not depend on whether the destination aliases an operand (effect order on all paths)",
                     "results do not depend on the history that built a set (allocation size never consulted; infinite flag always consulted; defining functions overwrite)",
                     "-1 conventions for infinite sets (weight/last/last_unset/nr_ulongs)"]
